@@ -531,6 +531,16 @@ unsigned int ares_dns_rr_get_ttl(const ares_dns_rr_t *rr)
   if (rr == NULL) {
     return 0;
   }
+
+  /* Records handed out by the query cache carry the time spent in the cache
+   * in the parent's ttl_decrement; every reader of a TTL must see the
+   * remaining lifetime, not the original one. */
+  if (rr->parent != NULL) {
+    if (rr->parent->ttl_decrement > rr->ttl) {
+      return 0;
+    }
+    return rr->ttl - rr->parent->ttl_decrement;
+  }
   return rr->ttl;
 }
 
